@@ -6,6 +6,7 @@ package obs
 import (
 	"fmt"
 	"io"
+	"reflect"
 	"sort"
 	"strings"
 	"sync"
@@ -114,8 +115,70 @@ var Volatile = map[string]bool{
 }
 
 // DumpAll walks every collection of a transaction: name -> sorted "key=value" entries.
+// accessorsOutsideAll lists the accessor methods of the transaction's variables whose collection the All()
+// iteration does not hand out (computed on first use): a variable that All() forgets is invisible to the
+// library's own reset as well, so the dump reads it through its accessor.
+var (
+	accOnce    sync.Once
+	accMissing []string
+)
+
+func accessorsOutsideAll(tx plugintypes.TransactionState) []string {
+	accOnce.Do(func() {
+		seen := map[collection.Collection]bool{}
+		tx.Variables().All(func(_ variables.RuleVariable, col collection.Collection) bool {
+			if col != nil {
+				seen[col] = true
+			}
+			return true
+		})
+		v := reflect.ValueOf(tx.Variables())
+		t := v.Type()
+		colT := reflect.TypeOf((*collection.Collection)(nil)).Elem()
+		for i := 0; i < t.NumMethod(); i++ {
+			m := t.Method(i)
+			if m.Type.NumIn() != 1 || m.Type.NumOut() != 1 || !m.Type.Out(0).Implements(colT) {
+				continue
+			}
+			res := v.Method(i).Call(nil)[0]
+			if res.IsNil() {
+				continue
+			}
+			if col, ok := res.Interface().(collection.Collection); ok && !seen[col] {
+				accMissing = append(accMissing, m.Name)
+			}
+		}
+		sort.Strings(accMissing)
+	})
+	return accMissing
+}
+
+// AccessorsOutsideAll is what the first dump found (for evidence).
+func AccessorsOutsideAll() []string { return accMissing }
+
 func DumpAll(tx plugintypes.TransactionState) map[string][]string {
 	out := map[string][]string{}
+	if names := accessorsOutsideAll(tx); len(names) > 0 {
+		v := reflect.ValueOf(tx.Variables())
+		for _, n := range names {
+			res := v.MethodByName(n).Call(nil)[0]
+			if res.IsNil() {
+				continue
+			}
+			col, ok := res.Interface().(collection.Collection)
+			if !ok || Volatile[col.Name()] {
+				continue
+			}
+			var ents []string
+			for _, m := range col.FindAll() {
+				ents = append(ents, m.Key()+"="+m.Value())
+			}
+			sort.Strings(ents)
+			if len(ents) > 0 && strings.Join(ents, "") != "=" {
+				out["accessor:"+n] = ents
+			}
+		}
+	}
 	tx.Variables().All(func(v variables.RuleVariable, col collection.Collection) bool {
 		if col == nil {
 			return true
